@@ -10,17 +10,34 @@ import numpy
 
 from .core import Driver
 
-LEVEL_TEXT = ("Proof over the reals: the code-shaped statistic (sum over target bins of w*log(rate) minus log w!, minus the "
-              "expected count) equals the sum over ALL bins of log Poisson-pmf(count | rate) for every rate array and count "
-              "array (any shape, kernel-checked by induction over lists), for the unscaled variant (L, CL) and for the "
-              "variant scaled by N_obs/N_fore (S, M: spatial and magnitude marginals); the value is -inf exactly when an "
-              "event lies in a zero-rate bin; marginals sum to the total. Tied to the code by a numerical correspondence of "
-              "the same definition instantiated at Float with the four public tests (observed statistic and every simulated "
-              "entry, random numbers injected) and by a direct scipy logpmf oracle.")
+LEVEL_TEXT = ("Proof over the reals, every shape, no size bound (induction over lists): the code-shaped statistic (sum over target "
+              "bins of w*log(rate) minus log w!, minus the expected count) equals the sum over ALL bins of log Poisson-pmf(count | "
+              "rate), unscaled for L / CL and with the marginal rates scaled by N_obs/N_fore for S / M; it is -inf exactly when an "
+              "event lies in a zero-rate bin; marginals sum to the total. The WHOLE of _poisson_likelihood_test is one Lean function "
+              "(log-rates prepared once from the observed catalog, simulation loop on C06's sampler with the count assertion, "
+              "statistic of every simulated array, quantile) under the four public wrappers on C03's gridding model: every simulated "
+              "entry equals the same sum of log pmf of ITS simulated catalog (the hypothesis 'N_obs events' is discharged by count "
+              "conservation), is never -inf, totality for valid inputs; histories on shared objects (evaluations never change a "
+              "later statistic; region binding D40). Round 4: num_simulations as an argument of its own (the first num_simulations "
+              "rows of random_numbers are read, surplus rows never, too few raise; the distribution has exactly that many entries) "
+              "and the DEFAULT random path (random_numbers=None: the global generator's uniform stream cut into consecutive, "
+              "disjoint blocks, N_obs numbers per simulation for CL / S / M, the Poisson draws for L) are inside the model; every "
+              "entry on that path is the sum of log pmf of the catalog placed from its own block; totality on that path; the "
+              "per-event view: for every rectangular rate table and every catalog inside region and magnitude range the L / CL "
+              "statistic is sum over EVENTS of log(rate of the event's own bin) - sum log w! - N_fore, with those rates being "
+              "what forecast.target_event_rates / get_rates returns (no bin mis-indexed, every event counted once). Tied to "
+              "the code by numerical correspondence of the Float instance with the four public tests and the array-level driver "
+              "(observed entry, every simulated entry, simulated catalogs exactly, quantile) on injected, surplus-row, seeded and "
+              "stream inputs, by a direct scipy logpmf oracle, and - for poisson_joint_log_likelihood_ndarray and the statistic "
+              "slice - by definitions regenerated from the Python source and proved equal to the model (source tie).")
 LEVEL_NOTE = ("Floating-point rounding of log / loggamma / sums is not modelled: theorems are about real numbers, the Float "
               "instance is compared with numpy/scipy to 1e-9 relative (plus 1e-13 of the magnitude of the cancelling terms). "
-              "Which cell a simulated event falls into (cumsum + searchsorted) is C06's subject: the harness recomputes the "
-              "simulated count arrays from the injected numbers with numpy.")
+              "Placement of simulated events is C06's Soft64 model composed into the chain (simulated catalogs compared exactly, "
+              "against the arrays the code built). Inputs of the model, not derived: the Poisson draws of the L-test, the uniform "
+              "stream of numpy's legacy generator (re-created by the harness from the seed; if the code consumes the stream in "
+              "another order its entries are still judged by the oracle, the stream model is then not applied), the (cell, "
+              "magnitude-bin) lookup of every event (C01-C03). poisson_spatial_likelihood (anchor, not in the statement) is "
+              "compared with the faithful Float model everywhere, nan for nan outside its domain (a repaired 0 is accepted too).")
 DESIGN_REF = "DESIGN.md §4 C05"
 TECHNIQUE = "Lean 4 theorems over Mathlib reals (generic RealOps model) + differential testing of the Float instance + scipy oracle"
 
@@ -40,14 +57,27 @@ THEOREMS = ["PoissonLL.stat_eq_sum_logpmf", "PoissonLL.jointLL_eq_sum_logpmf", "
             # round 5 (Properties/C05_Session.lean): histories on shared objects
             "PoissonSession.eval_preserves_observables", "PoissonSession.evaluations_irrelevant",
             "PoissonSession.scale_absolute", "PoissonSession.data_after_scale", "PoissonSession.new_forecast_rebinds",
-            "PoissonSession.test_binds_region", "PoissonSession.runOps_test_head"]
+            "PoissonSession.test_binds_region", "PoissonSession.runOps_test_head",
+            # round 4 of the owners (Properties/C05_Stream.lean): num_simulations, default random path
+            "PoissonTest.takeRows_eq_some", "PoissonTest.runN_reads_first_rows", "PoissonTest.runN_too_few_rows",
+            "PoissonTest.runN_spec", "PoissonTest.chunks_spec", "PoissonTest.chunks_isSome_iff", "PoissonTest.chunk_getElem",
+            "PoissonTest.runStream_eq_run", "PoissonTest.stream_entries_eq_sum_logpmf",
+            "PoissonTest.stream_entries_eq_sum_logpmf_norm", "PoissonTest.runStream_total",
+            # Properties/C05_Events.lean: the per-event view (target_event_rates)
+            "PoissonTest.stat_unnorm_closed", "PoissonTest.stat_L_eq_sum_over_events",
+            "PoissonTest.targetEventRates_table", "PoissonTest.stat_L_eq_sum_log_target_event_rates",
+            "PoissonTest.public_S_M_ignore_other_coordinate", "PoissonTest.public_M_never_rejects",
+            # array-valued scale factors in the session model (Model/PoissonSession.lean `Factor`)
+            "PoissonSession.scaleBy_absolute", "PoissonSession.data_after_scaleBy"]
 TRUSTED = ["Lean 4.33 kernel", "axioms: propext, Classical.choice, Quot.sound at most",
            "Real.log / Real.exp / Nat.factorial stand for numpy.log, scipy.special.loggamma(n+1) (RealOps); rounding of "
            "these functions and of float sums is not modelled, the Float instance is compared numerically on every run",
-           "numpy.cumsum / numpy.searchsorted place simulated events (C06); the harness recomputes the simulated count "
-           "arrays with the same numpy calls", "numpy.random legacy stream order (seed -> poisson -> rand) for the L-test "
-           "without injection", "gridding of interior points by CSEPCatalog / CartesianGrid2D (C01-C03)",
-           "harness/c05.py generators, oracle and comparison; driver parsing (Proto.lean, Drive/C05.lean)"]
+           "Soft64 = IEEE binary64 for cumsum / division of the sampling weights (C06; simulated catalogs compared exactly)",
+           "numpy.random legacy generator: the Poisson draws and the uniform stream are inputs of the model (re-created "
+           "from the seed by the harness); that k calls of rand(n) yield consecutive blocks of one stream is checked on every run",
+           "the (cell, magnitude bin) lookup of an event by CSEPCatalog / CartesianGrid2D (C01-C03; events generated outside "
+           "the binning routine's round-off band)",
+           "harness/c05.py, c05_session.py generators, oracle and comparison; driver parsing (Proto.lean, Drive/C05.lean)"]
 RULE = ("random gridded forecasts of shape (1..40)x(1..8), rates 10^U(-12,3) (classes: wide, tiny, huge, near-1) with 0-20% exact "
         "zeros, sometimes a whole zero row/column (zero marginal); catalogs of 0..300 events at interior points of cells and "
         "magnitude bins, clustered on few bins (several per bin) or spread, N_obs classes 0, 1, ~N_fore, up to 50*N_fore, 300; "
@@ -60,7 +90,16 @@ RULE = ("random gridded forecasts of shape (1..40)x(1..8), rates 10^U(-12,3) (cl
         "without magnitudes (S, M), exact duplicate events, integer-valued rates in an int64 array, verbose runs of 100-130 "
         "simulations, a second scale() of the same forecast object followed by more tests; every injected call is also run "
         "through the chained Lean model (events -> gridding -> counts; float weights -> placement -> simulated catalogs -> "
-        "statistics -> quantile) and the simulated catalogs are compared exactly. A case is non-trivial when "
+        "statistics -> quantile) and the simulated catalogs are compared exactly; round 4 (owners): one injected call in eight "
+        "passes 1-2 rows more than num_simulations (the first num_simulations rows count), the array-level driver 0-2; every "
+        "seed-only call (CL / S / M, and L with its Poisson draws) is replayed by the stream model from the re-created uniform "
+        "stream; the per-cell map is compared with the Float model in every case (nan for nan); forecast.target_event_rates is "
+        "called on every case: bit-identical to the forecast's entries at the events' bins in catalog order (oracle and "
+        "model), and the per-event form of the L statistic is checked against the definition; 40% of the float64 forecasts are "
+        "scaled by a factor of any kind scale() documents (python / numpy scalars, 0-d, (1,1), per-cell (n,1), per-magnitude "
+        "(m,) and (1,m), per-bin (n,m) arrays, scale_to_test_date) after 0-2 earlier factors, 25% are re-scaled by another such "
+        "factor between the tests; the rates under test are stored x last factor computed by the harness (forecast.data must "
+        "agree), totals and per-event rates are read before and after every re-scaling. A case is non-trivial when "
         "some bin holds >= 2 events and N_obs != N_fore; distinct by (rate bits, counts).")
 
 MODES = ("L", "CL", "S", "M")
@@ -267,10 +306,80 @@ def _gen_spec(rng, tier):
     spec["open_far"] = rng.choice([4.0, 4.0, 60.0, 1000.0])       # how far above the last edge an open-bin event may lie (bin widths)
     # after the five calls: re-scale the SAME forecast object and test again (state kept on the forecast between calls)
     spec["rescale_after"] = rng.choice([None] * 6 + [0.5, 3.0, 7.0]) if dtype == "float64" else None
+    # round 4 (owners): factors of every kind scale() documents (python / numpy scalars, 0-d, (1,1), per-cell (n,1),
+    # per-magnitude (m,) and (1,m), per-bin (n,m) arrays, scale_to_test_date), 0-2 earlier factors set before the one that
+    # counts, and array-valued re-scalings between the tests
+    if dtype == "float64" and rng.random() < 0.4:
+        spec["fscale"] = None
+        spec["factor"] = dict(last=_gen_factor(rng), pre=[_gen_factor(rng, False) for _ in range(rng.choice([0, 0, 1, 2]))])
+    if dtype == "float64" and rng.random() < 0.25:
+        spec["rescale_after"] = _gen_factor(rng)
     return spec
 
 
 _BUILD_INFO = {}
+# what `GriddedDataSet.scale(val)` documents as legal: "int, float, or ndarray". Scalar-like kinds and arrays of every shape
+# that numpy broadcasts against the (cells, magnitude bins) array; the factor is ABSOLUTE (`_scale = val`), so only the last one
+# of a sequence counts.  `date` = `scale_to_test_date` (a scalar fraction of the forecast's duration).
+FACTOR_KINDS = ["float", "int", "np64", "np32", "0d", "1x1", "col", "col", "row", "row", "row2d", "full", "full", "date"]
+_SCALARS = [2.0, 0.5, 10.0, 3.0, 0.1, 0.25, 1.0]
+
+
+def _gen_factor(rng, allow_date=True):
+    kind = rng.choice(FACTOR_KINDS if allow_date else [k for k in FACTOR_KINDS if k != "date"])
+    return [kind, rng.randrange(2 ** 31)]
+
+
+def _factor(fk, ns, nm):
+    """the value handed to `scale()` for a factor spec [kind, seed] (deterministic)"""
+    kind, seed = fk
+    g = numpy.random.default_rng(seed)
+
+    def vals(shape):
+        v = numpy.round(10.0 ** g.uniform(-1, 1, size=shape), 3)
+        return numpy.where(g.random(shape) < 0.25, 1.0, v)
+    c = _SCALARS[seed % len(_SCALARS)]
+    if kind == "float":
+        return c
+    if kind == "int":
+        return 2 + seed % 3
+    if kind == "np64":
+        return numpy.float64(c)
+    if kind == "np32":
+        return numpy.float32([2.0, 0.5, 0.25, 4.0][seed % 4])
+    if kind == "0d":
+        return numpy.array(c)
+    if kind == "1x1":
+        return numpy.array([[c]])
+    if kind == "col":
+        return vals((ns, 1))
+    if kind == "row":
+        return vals((nm,))
+    if kind == "row2d":
+        return vals((1, nm))
+    if kind == "full":
+        return vals((ns, nm))
+    raise ValueError(kind)
+
+
+def _apply_factor(fore, held, fk):
+    """scale the forecast object as the spec says; returns the rate array the forecast now stands for, computed by the harness
+    itself: stored rates x factor, elementwise with numpy's broadcasting (for `date`: the fraction pyCSEP's own decimal-year
+    arithmetic gives, C15's subject)"""
+    ns, nm = held.shape
+    if fk[0] == "date":
+        import datetime
+        from csep.utils.time_utils import decimal_year
+        start, days = datetime.datetime(2020, 1, 1), 100 + fk[1] % 600
+        end = start + datetime.timedelta(days)
+        test = start + datetime.timedelta(1 + fk[1] % (days - 2))
+        fore.start_time, fore.end_time = start, end
+        fore.scale_to_test_date(test)
+        frac = (decimal_year(test + datetime.timedelta(1)) - decimal_year(start)) / (decimal_year(end) - decimal_year(start))
+        return numpy.asarray(held * frac, dtype=float)
+    w = _factor(fk, ns, nm)
+    fore.scale(w)
+    return numpy.asarray(held * w, dtype=float)
 
 
 def _build(spec):
@@ -284,10 +393,23 @@ def _build(spec):
     region = CartesianGrid2D.from_origins(origins, dh=dh, magnitudes=mags)
     c = spec.get("fscale")
     layout = spec.get("layout", "C")
-    if c:
+    _BUILD_INFO["held"] = None
+    if spec.get("factor"):
+        # the forecast holds `held`; earlier factors are set and replaced; the rates under test are held x LAST factor
+        fa = spec["factor"]
+        w0 = 1.0 if fa["last"][0] == "date" else _factor(fa["last"], ns, nm)
+        held = _with_layout(numpy.asarray(data / w0, dtype=float), layout)
+        fore = GriddedForecast(data=held, region=region, magnitudes=mags, name="forecast")
+        for fk in fa.get("pre", []):
+            fore.scale(_factor(fk, ns, nm))
+        _BUILD_INFO["held"] = numpy.array(held, dtype=float)
+        data = _apply_factor(fore, _BUILD_INFO["held"], fa["last"])
+    elif c:
         # the forecast holds data/c and is scaled by c (GriddedDataSet.scale): the rates under test are `fore.data`
-        fore = GriddedForecast(data=_with_layout(data / c, layout), region=region, magnitudes=mags, name="forecast").scale(c)
-        data = numpy.array(fore.data, dtype=float)
+        held = _with_layout(data / c, layout)
+        fore = GriddedForecast(data=held, region=region, magnitudes=mags, name="forecast").scale(c)
+        _BUILD_INFO["held"] = numpy.array(held, dtype=float)
+        data = numpy.asarray(_BUILD_INFO["held"] * c, dtype=float)
     else:
         # the forecast's array and the harness's array are two separate arrays with the same values and memory layout
         arr = _with_layout(data, layout)
@@ -296,6 +418,8 @@ def _build(spec):
             assert numpy.array_equal(arr, data)
         fore = GriddedForecast(data=arr, region=region, magnitudes=mags, name="forecast")
         data = _with_layout(data, layout) if layout != "C" else data.copy()
+        if spec.get("dtype") != "int64":
+            _BUILD_INFO["held"] = numpy.array(data, dtype=float)
     cnt = numpy.zeros((ns, nm), dtype=int)
     ev = []
     ndup = 0
@@ -341,6 +465,14 @@ def _build(spec):
     return fore, cat, data, cnt
 
 
+def _same_rates(fore, data):
+    """forecast.data against the harness's own stored x factor (same float operation, so normally bit-identical; 1e-12 allows
+    a forecast class that forms the product in another association)"""
+    with numpy.errstate(all="ignore"):
+        fd = numpy.asarray(fore.data, dtype=float)
+    return fd.shape == data.shape and bool(numpy.all(numpy.abs(fd - data) <= 1e-12 * numpy.abs(data)))
+
+
 @contextlib.contextmanager
 def _capture(pe):
     """record the array every call of poisson_evaluations._simulate_catalog returns (nothing in /repo is edited)"""
@@ -352,7 +484,10 @@ def _capture(pe):
 
     def wrap(*a, **k):
         out = orig(*a, **k)
-        rec.append(numpy.asarray(out).astype(int).ravel().copy())
+        try:        # recording must never disturb the call: whatever the helper returns today is handed on untouched
+            rec.append(numpy.asarray(out, dtype=float).astype(int).ravel().copy())
+        except Exception:
+            rec.append(numpy.zeros(0, dtype=int))            # unusable record: the harness's own placement stands in
         return out
 
     pe._simulate_catalog = wrap
@@ -413,6 +548,14 @@ def _eval_case(run, drv, pending, spec, tag="gen"):
             if len(e) > 5:
                 run.count("edge-event-" + e[5].split(":")[0])
     tests = {"L": pe.likelihood_test, "CL": pe.conditional_likelihood_test, "S": pe.spatial_test, "M": pe.magnitude_test}
+    held = _BUILD_INFO.get("held")
+    if spec.get("factor"):
+        run.count(f"factor-{spec['factor']['last'][0]}")
+        if spec["factor"].get("pre"):
+            run.count("factor-sequence")
+    if not _same_rates(fore, data):
+        run.oracle_failure(case, "forecast.data is not the stored rates times the factor set last (elementwise)")
+        return
     calls = [("CL", "inject"), ("S", "inject"), ("M", "inject"), ("L", "inject1"), ("L", "seed")]
     creg = spec.get("cat_region")
     run.count(f"catalog-region-{creg or ('same' if spec['same_region'] else 'copy')}")
@@ -449,19 +592,38 @@ def _eval_case(run, drv, pending, spec, tag="gen"):
             run.count("region-bound-by-test")
             continue
         if mode == "RESCALE":
-            fore.scale(how)                                   # GriddedDataSet.scale: data = _data * how from now on
-            data = numpy.array(fore.data, dtype=float)
+            # GriddedDataSet.scale: data = _data * how from now on (a scalar or an array of any broadcastable shape)
+            if held is None:
+                continue
+            # totals / per-event rates / the per-cell map are read BEFORE the re-scaling too (and again at the end): whatever
+            # a forecast object remembers from these reads must not survive scale()
+            _cells_check(run, drv, pending, case, fore, cat, data, cnt)
+            _per_event_check(run, drv, pending, case, spec, fore, cat, data, cnt)
+            if isinstance(how, (list, tuple)):
+                data = _apply_factor(fore, held, how)
+                run.count(f"rescaled-after-tests-{how[0]}")
+            else:
+                fore.scale(how)
+                data = numpy.asarray(held * how, dtype=float)
             run.count("rescaled-after-tests")
+            if not _same_rates(fore, data):
+                run.oracle_failure(case, "after scale(): forecast.data is not the stored rates times the factor set last")
+                return
             continue
         rates1d, obs1d, norm = _arrays(mode, data, cnt)
-        sims, rn, draws_txt, nsim_call = [], None, "-", nsim
+        sims, rn, draws_txt, nsim_call, stream = [], None, "-", nsim, None
         try:
             with _capture(pe) as rec:
                 if how == "inject":
-                    rn = g.random((nsim, n))
+                    # round 4: `num_simulations` is an argument of its own — in one call of eight the injected array has
+                    # 1-2 rows MORE than simulations asked; the first `num_simulations` rows are the ones to be used
+                    surplus = (1 + spec["rn_seed"] % 2) if (spec["rn_seed"] // 3) % 8 == 0 else 0
+                    rn = g.random((nsim + surplus, n))
                     if spec["rn_edge"] and n > 0:
                         rn[0, 0] = 0.0
-                        rn[-1, -1] = math.nextafter(1.0, 0.0)
+                        rn[nsim - 1, -1] = math.nextafter(1.0, 0.0)
+                    if surplus:
+                        run.count("injected-rows-exceed-num-simulations")
                     res = tests[mode](fore, cat, num_simulations=nsim, random_numbers=rn)
                     sims = [_sim_counts(rates1d, rn[k, :]) for k in range(nsim)]
                 elif how == "long":
@@ -489,9 +651,23 @@ def _eval_case(run, drv, pending, spec, tag="gen"):
                         continue
                     res = tests[mode](fore, cat, num_simulations=nsim_call, seed=spec["l_seed"])
                     numpy.random.seed(spec["l_seed"])
+                    l_draws, l_blocks = [], []
                     for _ in range(nsim_call):
                         nk = int(numpy.random.poisson(numpy.sum(data))) if mode == "L" else n
-                        sims.append(_sim_counts(rates1d, numpy.random.rand(nk)))
+                        blk = numpy.random.rand(nk)
+                        l_draws.append(nk)
+                        l_blocks.append(blk)
+                        sims.append(_sim_counts(rates1d, blk))
+                    if mode == "L":
+                        # the L-test interleaves a Poisson draw before every block: the draws and the uniform numbers consumed
+                        # (in order) go to the model, which cuts the stream into blocks of the drawn lengths (`chunks`)
+                        stream = numpy.concatenate(l_blocks) if l_blocks else numpy.zeros(0)
+                        draws_txt = ",".join(str(d) for d in l_draws)
+                    else:
+                        # round 4: the uniform stream itself (ONE draw of nsim * N_obs numbers after seeding) goes to the
+                        # model, which cuts it into one block per simulation (Model/PoissonStream.lean `runStream`)
+                        numpy.random.seed(spec["l_seed"])
+                        stream = numpy.random.rand(nsim_call * n)
         except Exception as e:  # the property promises a value for every forecast/catalog in its domain
             run.oracle_failure(case, f"{mode}-test ({how}) raised {type(e).__name__}: {e}")
             continue
@@ -506,6 +682,11 @@ def _eval_case(run, drv, pending, spec, tag="gen"):
         observed_sims = len(rec) == len(sims) and all(len(r) == len(rates1d) for r in rec)
         if observed_sims:
             run.count("simulated-arrays-observed")
+            if stream is not None and not all(numpy.array_equal(a, b) for a, b in zip(rec, sims)):
+                # the code consumed the global generator's stream in another order than `rand(N_obs)` per simulation: its
+                # entries are still judged by the oracle on the catalogs it built; the stream model does not apply
+                run.count("stream-order-differs-from-legacy")
+                stream = None
             sims = rec
         orates = _oracle_arrays(mode, data, None, True)
         # observed statistic
@@ -528,7 +709,7 @@ def _eval_case(run, drv, pending, spec, tag="gen"):
         # the reported quantile is the fraction of the RETURNED simulated statistics not exceeding the returned observed one
         if td and not (math.isnan(obs) or any(math.isnan(v) for v in td)):
             kq = sum(1 for v in td if v <= obs)
-            if float(res.quantile) != kq / len(td):
+            if abs(float(res.quantile) - kq / len(td)) > 1e-12:
                 run.oracle_failure(case, f"{mode}-test ({how}): quantile {float(res.quantile)!r} is not {kq}/{len(td)}")
         # correspondence with the Lean Float model
         simtxt = ";".join(",".join(str(int(c)) for c in s) for s in sims) if sims else "-"
@@ -548,21 +729,57 @@ def _eval_case(run, drv, pending, spec, tag="gen"):
                 run.count("chain-compared")
             else:
                 run.count("chain-skipped-budget")
+        if stream is not None and len(rates1d) * max(1, len(stream)) <= CHAIN_BUDGET:
+            sttxt = ",".join(_bits(x) for x in stream) if len(stream) else "-"
+            i = drv.ask(f"c05_stream {mode} {nm} {_rows(data, _bits)} {evtxt} {draws_txt if mode == 'L' else '-'} {nsim_call} {sttxt}")
+            gap = min([abs(v - obs) for v in td if not math.isinf(v - obs)] or [math.inf])
+            pending.append((case, mode, how + "/stream", i, impl_vals, scales,
+                            dict(sims=[[int(c) for c in s] for s in sims], quantile=float(res.quantile), nsim=len(td),
+                                 near_tie=gap <= 1e-7 * max(scales + [1.0]))))
+            run.count("stream-compared")
     if creg is None and spec["rn_seed"] % 7 == 0 and data.size <= 400:
         _array_level(run, drv, pending, case, spec, data, cnt, g)
+    if getattr(cat, "region", None) is not None and getattr(cat.region, "magnitudes", None) is not None and n <= 5000:
+        _per_event_check(run, drv, pending, case, spec, fore, cat, data, cnt)
     if creg != "none" or getattr(cat, "region", None) is not None:   # the per-cell map needs the catalog's spatial counts
         _cells_check(run, drv, pending, case, fore, cat, data, cnt)
+
+
+def _private(run, module, name, params):
+    """a PRIVATE helper of the tree under test, or None when it is gone / takes other arguments: its direct cases are then
+    skipped (histogram `helper-missing:<name>`), the public tests reach the same mechanism"""
+    import inspect
+    fn = getattr(module, name, None)
+    ok = callable(fn)
+    if ok:
+        try:
+            have = inspect.signature(fn).parameters
+            ok = all(p_ in have for p_ in params) or any(v.kind == v.VAR_KEYWORD for v in have.values())
+        except (TypeError, ValueError):
+            ok = True
+    if not ok:
+        run.count(f"helper-missing:{name}")
+        note = (f"private helper {name} is absent or has another signature on the tree under test: its direct cases were skipped, "
+                f"the public tests reach the same mechanism")
+        if note not in run.assumptions:
+            run.assumptions.append(note)
+        return None
+    return fn
 
 
 def _array_level(run, drv, pending, case, spec, data, cnt, g):
     """`_poisson_likelihood_test` called directly with every combination of its two documented flags (the public tests use
     three of the four); the statistic is normalised exactly when BOTH are set"""
     from csep.core import poisson_evaluations as pe
+    plt = _private(run, pe, "_poisson_likelihood_test", ("forecast_data", "observed_data", "num_simulations", "random_numbers",
+                                                         "seed", "use_observed_counts", "verbose", "normalize_likelihood"))
+    if plt is None:
+        return
     n, rates, counts = int(cnt.sum()), data.ravel(), cnt.ravel()
     for u, nl in ((True, True), (False, True), (True, False), (False, False)):
         if u:
             nsim_call, draws, kw = spec["nsim"], "-", dict(seed=None)
-            rn = g.random((nsim_call, n))
+            rn = g.random((nsim_call + (spec["rn_seed"] // 7) % 3, n))      # 0-2 rows more than simulations asked
         else:
             numpy.random.seed(spec["l_seed"])
             n1 = int(numpy.random.poisson(numpy.sum(data)))
@@ -572,7 +789,7 @@ def _array_level(run, drv, pending, case, spec, data, cnt, g):
             rn = g.random((1, n1))
         label = f"_poisson_likelihood_test(use_observed_counts={u}, normalize_likelihood={nl})"
         try:
-            qs, obs, td = pe._poisson_likelihood_test(data.copy(), cnt.astype(float), num_simulations=nsim_call, random_numbers=rn,
+            qs, obs, td = plt(data.copy(), cnt.astype(float), num_simulations=nsim_call, random_numbers=rn,
                                                       use_observed_counts=u, normalize_likelihood=nl, verbose=False, **kw)
             obs, td, qs = float(obs), [float(v) for v in td], float(qs)
         except Exception as e:
@@ -600,6 +817,41 @@ def _array_level(run, drv, pending, case, spec, data, cnt, g):
                                  near_tie=gap <= 1e-7 * max(scales + [1.0]))))
 
 
+def _per_event_check(run, drv, pending, case, spec, fore, cat, data, cnt):
+    """round 4: the per-event view of the same statistic. `forecast.target_event_rates(catalog)` (forecasts.py:286-358) returns,
+    event by event, the rate of the event's OWN (cell, magnitude bin); the L / CL statistic is
+    sum(log(rates)) - sum(loggamma(w + 1)) - N_fore (PoissonTest.stat_L_eq_sum_log_target_event_rates).  Checked: the rates are
+    exactly the forecast's entries at the events' bins, in catalog order (oracle + model `c05_ter`), and the identity holds
+    against the definition's value."""
+    try:
+        with numpy.errstate(all="ignore"):
+            rates, n_fore = fore.target_event_rates(cat, scale=False)
+        rates = numpy.asarray(rates, dtype=float).ravel()
+    except Exception as e:
+        run.oracle_failure(case, f"target_event_rates raised {type(e).__name__}: {e}")
+        return
+    want = [float(data[e[0], e[1]]) for e in spec["events"]]
+    run.count("per-event-view-checked")
+    if len(rates) != len(want) or any(abs(a - b) > 1e-12 * abs(b) for a, b in zip(rates, want)):
+        run.oracle_failure(case, f"target_event_rates: {rates.tolist()[:6]}... is not the list of the forecast's rates at the events' "
+                                 f"own bins {want[:6]}...")
+        return
+    tot = math.fsum(data.ravel().tolist())
+    if not abs(float(n_fore) - tot) <= 1e-9 * tot:
+        run.oracle_failure(case, f"target_event_rates: expected number {float(n_fore)!r} but the forecast's rates sum to {tot!r}")
+        return
+    ref, scale, zero_hit = _oracle(data.ravel().tolist(), cnt.ravel(), False)
+    if not zero_hit and len(want):
+        val = math.fsum(math.log(r) for r in want) - math.fsum(math.lgamma(c + 1) for c in cnt.ravel().tolist()) - float(n_fore)
+        if not _close(val, ref, scale):
+            run.oracle_failure(case, f"per-event view: sum(log(target_event_rates)) - sum(loggamma(w+1)) - N_fore = {val!r} but the "
+                                     f"sum of log pmf over all bins is {ref!r}")
+    if len(want) <= 400:
+        evtxt = ",".join(f"{e[0]}:{e[1]}" for e in spec["events"]) if spec["events"] else "-"
+        i = drv.ask(f"c05_ter {_rows(data, _bits)} {evtxt}")
+        pending.append((case, "ter", "target_event_rates", i, [float(r) for r in rates], [0.0] * len(rates), dict(ter=True)))
+
+
 def _cells_check(run, drv, pending, case, fore, cat, data, cnt):
     """poisson_spatial_likelihood: per-cell log pmf(w | rate * N_obs/N_fore). Checked where the definition is finite in
     every cell (all spatial rates positive, catalog not empty); elsewhere only counted (0*log 0 = nan, see notes)."""
@@ -613,29 +865,36 @@ def _cells_check(run, drv, pending, case, fore, cat, data, cnt):
     except Exception as e:
         run.oracle_failure(case, f"poisson_spatial_likelihood raised {type(e).__name__}: {e}")
         return
-    if n == 0 or min(srates) <= 0.0:
-        run.count("cells-outside-domain")
-        run.extra["cells_nan_outside_domain"] = run.extra.get("cells_nan_outside_domain", 0) + int(numpy.isnan(poll).sum())
-        return
-    run.count("cells-checked")
     s = n / math.fsum(srates)
     w = cnt.sum(axis=1)
     lam = numpy.array([r * s for r in srates])
-    ref = poisson.logpmf(w, lam)
-    scales = [float(l + c * abs(math.log(l)) + math.lgamma(c + 1)) for l, c in zip(lam, w)]
-    if poll.shape != ref.shape:
+    scales = [float(l + c * abs(math.log(l)) + math.lgamma(c + 1)) if l > 0 else float(c + 1) for l, c in zip(lam, w)]
+    if poll.shape != lam.shape:
         run.oracle_failure(case, f"poisson_spatial_likelihood: shape {poll.shape} for {len(srates)} cells")
         return
-    bad = [k for k in range(len(ref)) if not _close(float(poll[k]), float(ref[k]), scales[k])]
-    if bad:
-        k = bad[0]
-        run.oracle_failure(case, f"poisson_spatial_likelihood cell {k}: {float(poll[k])!r} != log pmf {float(ref[k])!r}")
+    if n == 0 or min(srates) <= 0.0:
+        # outside the domain of the definition-oracle (0 * log 0 = nan in the code, see notes): no oracle, but round 4
+        # compares these maps too with the Float instance of the faithful model (nan for nan, -inf for -inf)
+        run.count("cells-outside-domain")
+        run.extra["cells_nan_outside_domain"] = run.extra.get("cells_nan_outside_domain", 0) + int(numpy.isnan(poll).sum())
+    else:
+        run.count("cells-checked")
+        ref = poisson.logpmf(w, lam)
+        bad = [k for k in range(len(ref)) if not _close(float(poll[k]), float(ref[k]), scales[k])]
+        if bad:
+            k = bad[0]
+            run.oracle_failure(case, f"poisson_spatial_likelihood cell {k}: {float(poll[k])!r} != log pmf {float(ref[k])!r}")
     i = drv.ask(f"c05_cells {_rows(data, _bits)} {_rows(cnt, lambda c: str(int(c)))}")
     pending.append((case, "cells", "poisson_spatial_likelihood", i, [float(x) for x in poll], scales, None))
 
 
 def _flush_chain(run, case, mode, how, line, impl_vals, scales, extra):
     """chained model: `stats|simulated arrays|k:n`; session model: one value per test step of the history"""
+    if extra.get("ter"):
+        model = [] if line == "-" else [_unbits(t) if t.isdigit() else None for t in line.split(",")]
+        if len(model) != len(impl_vals) or any(m is None or abs(v - m) > 1e-12 * abs(m) for v, m in zip(impl_vals, model)):
+            run.mismatch(dict(case, mode=mode, how=how), [repr(v) for v in impl_vals], line[:300])
+        return
     if "session_labels" in extra:
         toks = line.split(" ") if line != "-" else []
         model = [(-math.inf if t == "ninf" else _unbits(t)) if (t == "ninf" or t.isdigit()) else None for t in toks]
@@ -666,7 +925,7 @@ def _flush_chain(run, case, mode, how, line, impl_vals, scales, extra):
     k, n = parts[2].split(":")
     if int(n) != extra["nsim"]:
         run.mismatch(dict(case, mode=mode, how=how), dict(nsim=extra["nsim"]), dict(nsim=int(n)))
-    elif not extra["near_tie"] and extra["quantile"] != int(k) / int(n):
+    elif not extra["near_tie"] and abs(extra["quantile"] - int(k) / int(n)) > 1e-12:
         run.mismatch(dict(case, mode=mode, how=how), dict(quantile=extra["quantile"]), dict(quantile=parts[2]))
     for v, m in zip(impl_vals, model):
         _track("model", v, m)
@@ -683,7 +942,10 @@ def _flush(run, drv, pending):
             continue
         toks = out[i].replace(",", " ").split(" ")
         model = [(-math.inf if t == "ninf" else _unbits(t)) if (t == "ninf" or t.isdigit()) else None for t in toks]
-        ok = len(model) == len(impl_vals) and all(m is not None and _close(v, m, s)
+        # per-cell map outside its domain: the faithful model says nan (0 * log 0); the code may say nan too or, should the
+        # defect described in notes/C05.md be repaired (xlogy), the definition's value log pmf(0 | 0) = 0
+        ok = len(model) == len(impl_vals) and all(m is not None and (_close(v, m, s) or (mode == "cells" and math.isnan(m)
+                                                                                        and (math.isnan(v) or v == 0.0)))
                                                   for v, m, s in zip(impl_vals, model, scales))
         if not ok:
             run.mismatch(dict(case, mode=mode, how=how), [repr(v) for v in impl_vals], [repr(m) for m in model])
@@ -709,7 +971,7 @@ def _guarded_eval(run, drv, pending, spec, tag="gen"):
 
 def run(run, rng, tier):
     drv, pending = Driver(), []
-    n_cases = 1100 if tier == "quick" else 16000
+    n_cases = 900 if tier == "quick" else 12000
     # fixed boundary cases first
     for spec in _corpus_specs():
         _guarded_eval(run, drv, pending, spec, tag="corpus")
